@@ -169,7 +169,7 @@ def run(ctx):
         ar = absfam.abs_records(i, r)
         nabs += len(ar)
         records.extend(ar)
-    tuples, gen = core.validate_traces(ctx, "T_C07", absfam.TRACE_CFG, records, tags=("REJECT", "SKIP"))
+    tuples, gen = core.validate_traces(ctx, "T_C07", absfam.TRACE_CFG, records, tags=("REJECT", "SKIP", "KNOWN"))
     skipped_prop = sum(1 for t in tuples["SKIP"] if t[2] == "prop")
     skipped_abs = sum(1 for t in tuples["SKIP"] if t[2] == "abs")
     absfam.collect(ctx, tuples, cases, results, "AbsParser", describe)
@@ -189,7 +189,7 @@ def run(ctx):
         "locales_covered": len({repr(c["kw"]) for c in cases}),
         "samples": [dict(describe(c), expected_by_spec="Reading(order, fields)", observed=r["out"]) for c, r in list(zip(cases, results))[:: max(1, len(cases) // 6)]][:6],
     }
-    return core.finish(ctx, LEVEL, cov, assumptions=[
+    return core.finish(ctx, LEVEL, cov, findings_desc={f["id"]: f["signature"].get("text", "") for f in core.load_findings("C07")[0]}, assumptions=[
         "TLC bounds: year grid above x all valid days x 6 orders x padding x time suffix (machine = oracle in every state)",
         "the machine is bound to the code by refinement-on-trace of every probe event; the property verdict uses only the oracle",
-        "year-last dates joined by '-' whose year spells a UTC offset (HHMM <= 1400, MM in {00,30,45}) are outside the domain"])
+        "year-last dates joined by '-' whose year spells a UTC offset (HHMM <= 1400, MM in {00,30,45}) are judged by the statement; the pinned tree fails them (known finding C07-year-as-offset), any other wrong reading of such a string is a violation"])
